@@ -1,4 +1,5 @@
 import Ucfg.Model.Unpack
+import Ucfg.Lemmas.UnpackValid
 /-
   C13 — Unpack changes only what the config mentions and nothing when it fails.
 
@@ -227,5 +228,347 @@ theorem unpack_frame (std : Stdlib) (o : Opts) (cfg : Val) (fs : List (String ×
 theorem failed_unpack_has_no_result (std : Stdlib) (o : Opts) (ty : Ty) (old : GoVal) (cfg : Val) (e : Err)
     (h : unpack std o ty old cfg = .err e) : ∀ v, unpack std o ty old cfg ≠ .ok v := by
   intro v hv; rw [h] at hv; cases hv
+
+/-! ### the frame, recursively
+
+`FrameIn o ty old new v`: going from `old` to `new` under the setting `v`, everything the setting has nothing for is
+unchanged - at every depth reachable through struct fields, non-nil pointers and fixed-size arrays (slices are rebuilt
+according to the list policy and map entries are merged into copies: their frames are the correspondence check's).
+One induction over the fuel proves it for `mergeValue`, `reifyStructT`, `getField'` and `doArray` together. -/
+
+mutual
+def FrameIn (o : Opts) : Ty → GoVal → GoVal → Val → Prop
+  | .strct fs, .strct os, .strct ns, v =>
+    match toCfg? v with
+    | some cfg => FrameFields o fs os ns cfg
+    | none => True
+  | .ptr t, .ptr (some ox), .ptr (some nx), v => FrameIn o t ox nx v
+  | .array _ t, .array ol, .array nl, v =>
+    ∀ (i : Nat) (ox nx : GoVal) (s : Val), ol[i]? = some ox → nl[i]? = some nx → (castArr v)[i]? = some s →
+      FrameIn o t ox nx s
+  | _, _, _, _ => True
+def FrameFields (o : Opts) : List (String × String × String × Ty) → List GoVal → List GoVal → Val → Prop
+  | (g, tag, vtag, t) :: fr, ox :: or, nx :: nr, cfg =>
+    (match accessField o g tag vtag with
+     | .ok none => nx = ox                                   -- ignored / unexported: untouched
+     | .ok (some fi) =>
+       if fi.tag.squash then True
+       else
+         match pathGet tcPlain (parsePathOpts fi.name { o with handling := fi.handling }) cfg with
+         | .ok (some s) =>
+           if s.isNilPrim then (if t.isStrct then FrameIn { o with handling := fi.handling } t ox nx Val.nilV else nx = ox)
+           else FrameIn { o with handling := fi.handling } t ox nx s
+         | .ok none => if t.isStrct then FrameIn { o with handling := fi.handling } t ox nx Val.nilV else nx = ox
+         | .err e => if e.reason = .missing then (if t.isStrct then FrameIn { o with handling := fi.handling } t ox nx Val.nilV else nx = ox) else True
+         | _ => True
+     | _ => True) ∧ FrameFields o fr or nr cfg
+  | _, _, _, _ => True
+end
+
+/-- what `getField'` guarantees for one field -/
+def GetFrame (o' : Opts) (t : Ty) (ox nx : GoVal) (cfg : Val) (name : String) : Prop :=
+  match pathGet tcPlain (parsePathOpts name o') cfg with
+  | .ok (some s) =>
+    if s.isNilPrim then (if t.isStrct then FrameIn o' t ox nx Val.nilV else nx = ox)
+    else FrameIn o' t ox nx s
+  | .ok none => if t.isStrct then FrameIn o' t ox nx Val.nilV else nx = ox
+  | .err e => if e.reason = .missing then (if t.isStrct then FrameIn o' t ox nx Val.nilV else nx = ox) else True
+  | _ => True
+
+theorem frameFields_cons (o : Opts) (g tag vtag : String) (t : Ty) (fr : List (String × String × String × Ty))
+    (ox nx : GoVal) (or nr : List GoVal) (cfg : Val) :
+    FrameFields o ((g, tag, vtag, t) :: fr) (ox :: or) (nx :: nr) cfg =
+    ((match accessField o g tag vtag with
+      | .ok none => nx = ox
+      | .ok (some fi) => if fi.tag.squash then True else GetFrame { o with handling := fi.handling } t ox nx cfg fi.name
+      | _ => True) ∧ FrameFields o fr or nr cfg) := by
+  conv => lhs; unfold FrameFields
+  rfl
+
+theorem frameIn_ptr (o : Opts) (t : Ty) (ox nx : GoVal) (v : Val) :
+    FrameIn o (.ptr t) (.ptr (some ox)) (.ptr (some nx)) v = FrameIn o t ox nx v := by
+  conv => lhs; unfold FrameIn
+
+theorem frameIn_strct (o : Opts) (fs : List (String × String × String × Ty)) (os ns : List GoVal) (v cfg : Val)
+    (h : toCfg? v = some cfg) : FrameIn o (.strct fs) (.strct os) (.strct ns) v = FrameFields o fs os ns cfg := by
+  conv => lhs; unfold FrameIn
+  simp only [h]
+
+theorem frameIn_array (o : Opts) (k : Nat) (t : Ty) (ol nl : List GoVal) (v : Val) :
+    FrameIn o (.array k t) (.array ol) (.array nl) v =
+    ∀ (i : Nat) (ox nx : GoVal) (s : Val), ol[i]? = some ox → nl[i]? = some nx → (castArr v)[i]? = some s →
+      FrameIn o t ox nx s := by
+  conv => lhs; unfold FrameIn
+
+structure FClaims (std : Stdlib) (n : Nat) : Prop where
+  merge : ∀ (fo : FOpts) (ty : Ty) (old : GoVal) (v : Val) (r : GoVal),
+    mergeValue std n fo ty old v = .ok r → FrameIn fo.opts ty old r v
+  strct : ∀ (o : Opts) (fs : List (String × String × String × Ty)) (xs : List GoVal) (cfg : Val) (xs' : List GoVal),
+    reifyStructT std n o fs xs cfg = .ok xs' → FrameFields o fs xs xs' cfg
+  getf : ∀ (fo : FOpts) (t : Ty) (x : GoVal) (cfg : Val) (name : String) (r : GoVal),
+    getField' std n fo t x cfg name = .ok r → GetFrame fo.opts t x r cfg name
+  arr : ∀ (fo : FOpts) (t : Ty) (xs : List GoVal) (vs : List Val) (xs' : List GoVal),
+    doArray std n fo t 0 xs vs = .ok xs' →
+    ∀ (i : Nat) (ox nx : GoVal) (s : Val), xs[i]? = some ox → xs'[i]? = some nx → vs[i]? = some s →
+      FrameIn fo.opts t ox nx s
+
+theorem f_arr_step (std : Stdlib) (n : Nat) (IH : FClaims std n) :
+    ∀ (fo : FOpts) (t : Ty) (xs : List GoVal) (vs : List Val) (xs' : List GoVal),
+    doArray std (n+1) fo t 0 xs vs = .ok xs' →
+    ∀ (i : Nat) (ox nx : GoVal) (s : Val), xs[i]? = some ox → xs'[i]? = some nx → vs[i]? = some s →
+      FrameIn fo.opts t ox nx s := by
+  intro fo t xs vs xs' h i ox nx s hox hnx hs
+  cases xs with
+  | nil => simp at hox
+  | cons x xr =>
+    cases vs with
+    | nil => simp at hs
+    | cons v vr =>
+      simp only [doArray] at h
+      obtain ⟨mx, hmx, h2⟩ := bind_eq_ok h
+      obtain ⟨rest, hrest, hr⟩ := bind_eq_ok h2
+      simp only [Outcome.ok.injEq] at hr
+      subst hr
+      cases i with
+      | zero =>
+        simp only [List.getElem?_cons_zero, Option.some.injEq] at hox hnx hs
+        have hm := IH.merge fo t x v mx hmx
+        subst hox hs
+        split at hnx
+        · -- interface{} slot: no frame claimed
+          unfold FrameIn; trivial
+        · subst hnx; exact hm
+      | succ j =>
+        simp only [List.getElem?_cons_succ] at hox hnx hs
+        exact IH.arr fo t xr vr rest hrest j ox nx s hox hnx hs
+
+theorem f_getf_step (std : Stdlib) (n : Nat) (IH : FClaims std n) :
+    ∀ (fo : FOpts) (t : Ty) (x : GoVal) (cfg : Val) (name : String) (r : GoVal),
+    getField' std (n+1) fo t x cfg name = .ok r → GetFrame fo.opts t x r cfg name := by
+  intro fo t x cfg name r h
+  -- the branch for an absent / null setting
+  have absent : (match t with
+       | .strct _ => mergeValue std n fo t x Val.nilV
+       | _ =>
+         (match recValidate std fo.opts t fo.validators x with
+          | some e => raiseValidation e
+          | none => (.ok x : Outcome GoVal))) = .ok r →
+      (if t.isStrct then FrameIn fo.opts t x r Val.nilV else r = x) := by
+    intro ha
+    have keep : (match recValidate std fo.opts t fo.validators x with
+          | some e => raiseValidation e
+          | none => (.ok x : Outcome GoVal)) = .ok r → r = x := by
+      intro hk
+      cases hc : recValidate std fo.opts t fo.validators x with
+      | some e => rw [hc] at hk; simp [raiseValidation] at hk
+      | none => rw [hc] at hk; simp only [Outcome.ok.injEq] at hk; exact hk.symm
+    cases t with
+    | strct fs => simp only [Ty.isStrct, if_true]; exact IH.merge fo _ x Val.nilV r ha
+    | prim k => simp only [Ty.isStrct]; exact keep ha
+    | ptr t' => simp only [Ty.isStrct]; exact keep ha
+    | slice t' => simp only [Ty.isStrct]; exact keep ha
+    | array k t' => simp only [Ty.isStrct]; exact keep ha
+    | map t' => simp only [Ty.isStrct]; exact keep ha
+    | regexp => simp only [Ty.isStrct]; exact keep ha
+    | iface => simp only [Ty.isStrct]; exact keep ha
+    | config => simp only [Ty.isStrct]; exact keep ha
+    | unsupported => simp only [Ty.isStrct]; exact keep ha
+    | badmap => simp only [Ty.isStrct]; exact keep ha
+  unfold getField' at h
+  simp only at h
+  unfold GetFrame
+  cases hpg : pathGet tcPlain (parsePathOpts name fo.opts) cfg with
+  | ok vo =>
+    rw [hpg] at h
+    simp only at h
+    cases vo with
+    | none =>
+      simp only [Val.isNilOpt, if_true] at h
+      exact absent h
+    | some s =>
+      by_cases hn : s.isNilPrim = true
+      · simp only [Val.isNilOpt, hn, if_true] at h ⊢
+        exact absent h
+      · have hn' : s.isNilPrim = false := by simpa using hn
+        simp only [Val.isNilOpt, hn', Bool.false_eq_true, if_false] at h ⊢
+        obtain ⟨mx, hmx, h2⟩ := bind_eq_ok h
+        have hm := IH.merge fo t x s mx hmx
+        split at h2
+        · unfold FrameIn; trivial
+        · simp only [Outcome.ok.injEq] at h2; subst h2; exact hm
+  | err e =>
+    rw [hpg] at h
+    simp only at h
+    by_cases hm : e.reason = Reason.missing
+    · simp only [hm, if_true, Val.isNilOpt] at h ⊢
+      exact absent h
+    · simp only [hm, if_false]
+  | panic s => trivial
+  | fuel => trivial
+
+theorem f_strct_step (std : Stdlib) (n : Nat) (IH : FClaims std n) :
+    ∀ (o : Opts) (fs : List (String × String × String × Ty)) (xs : List GoVal) (cfg : Val) (xs' : List GoVal),
+    reifyStructT std (n+1) o fs xs cfg = .ok xs' → FrameFields o fs xs xs' cfg := by
+  intro o fs xs cfg xs' h
+  cases fs with
+  | nil => unfold FrameFields; trivial
+  | cons f fr =>
+    obtain ⟨g, tag, vtag, t⟩ := f
+    cases xs with
+    | nil => unfold FrameFields; trivial
+    | cons x xr =>
+      unfold reifyStructT at h
+      obtain ⟨fio, hacc, h2⟩ := bind_eq_ok h
+      cases fio with
+      | none =>
+        simp only at h2
+        obtain ⟨rest, hrest, hr⟩ := bind_eq_ok h2
+        simp only [Outcome.ok.injEq] at hr
+        subst hr
+        rw [frameFields_cons, hacc]
+        exact ⟨rfl, IH.strct o fr xr cfg rest hrest⟩
+      | some fi =>
+        simp only at h2
+        obtain ⟨x', hx', h3⟩ := bind_eq_ok h2
+        obtain ⟨rest, hrest, hr⟩ := bind_eq_ok h3
+        simp only [Outcome.ok.injEq] at hr
+        subst hr
+        rw [frameFields_cons, hacc]
+        refine ⟨?_, IH.strct o fr xr cfg rest hrest⟩
+        simp only
+        by_cases hsq : fi.tag.squash = true
+        · simp only [hsq, if_true]
+        · simp only [hsq, Bool.false_eq_true, if_false] at hx' ⊢
+          exact IH.getf _ t x cfg fi.name x' hx'
+
+theorem f_merge_step (std : Stdlib) (n : Nat) (IH : FClaims std n) :
+    ∀ (fo : FOpts) (ty : Ty) (old : GoVal) (v : Val) (r : GoVal),
+    mergeValue std (n+1) fo ty old v = .ok r → FrameIn fo.opts ty old r v := by
+  intro fo ty old v r h
+  cases ty with
+  | ptr t =>
+    cases old with
+    | ptr p =>
+      cases p with
+      | none => unfold FrameIn; trivial
+      | some x =>
+        simp only [mergeValue] at h
+        obtain ⟨x', hx', hr⟩ := bind_eq_ok h
+        simp only [Outcome.ok.injEq] at hr
+        subst hr
+        rw [frameIn_ptr]
+        exact IH.merge fo t x v x' hx'
+    | _ => unfold FrameIn; trivial
+  | strct fs =>
+    cases old with
+    | strct xs =>
+      simp only [mergeValue] at h
+      cases hc : toCfg? v with
+      | none => rw [hc] at h; simp [Outcome.raise] at h
+      | some sub =>
+        rw [hc] at h
+        simp only at h
+        obtain ⟨xs', hxs, hr⟩ := bind_eq_ok h
+        simp only [Outcome.ok.injEq] at hr
+        subst hr
+        rw [frameIn_strct _ _ _ _ _ _ hc]
+        exact IH.strct fo.opts fs xs sub xs' hxs
+    | _ => unfold FrameIn; trivial
+  | array sz t =>
+    cases old with
+    | array xs =>
+      simp only [mergeValue] at h
+      by_cases hl : ((castArr v).length != sz) = true
+      · simp [hl, Outcome.raise] at h
+      · simp only [hl, Bool.false_eq_true, if_false] at h
+        obtain ⟨xs', hxs, hf⟩ := bind_eq_ok h
+        have hr : r = .array xs' := by
+          unfold finishArray at hf
+          simp only at hf
+          cases hv : runValidators std fo.validators (.array xs') with
+          | none => rw [hv] at hf; simp only [Outcome.ok.injEq] at hf; exact hf.symm
+          | some e => rw [hv] at hf; simp [raiseValidation] at hf
+        subst hr
+        rw [frameIn_array]
+        exact IH.arr fo t xs (castArr v) xs' hxs
+    | _ => unfold FrameIn; trivial
+  | prim k => unfold FrameIn; trivial
+  | regexp => unfold FrameIn; trivial
+  | iface => unfold FrameIn; trivial
+  | slice t => unfold FrameIn; trivial
+  | map t => unfold FrameIn; trivial
+  | config => unfold FrameIn; trivial
+  | unsupported => unfold FrameIn; trivial
+  | badmap => unfold FrameIn; trivial
+
+theorem fclaims (std : Stdlib) : ∀ n, FClaims std n := by
+  intro n
+  induction n with
+  | zero =>
+    refine ⟨?_, ?_, ?_, ?_⟩
+    · intro fo ty old v r h; simp [mergeValue] at h
+    · intro o fs xs cfg xs' h; simp [reifyStructT] at h
+    · intro fo t x cfg name r h; simp [getField'] at h
+    · intro fo t xs vs xs' h; simp [doArray] at h
+  | succ k ih => exact ⟨f_merge_step std k ih, f_strct_step std k ih, f_getf_step std k ih, f_arr_step std k ih⟩
+
+/-- **C13, recursively.** After a successful Unpack into a struct - of any field types, with any tags, validators,
+pre-filled values and configuration - everything the configuration has nothing for holds what it held, at every depth
+reachable through struct fields, non-nil pointers and fixed-size arrays: ignored and unexported fields, fields of
+primitive / pointer / container type without a setting (or with a null one), and the same inside every nested struct. -/
+theorem unpack_frame_rec (std : Stdlib) (o : Opts) (fs : List (String × String × String × Ty)) (xs : List GoVal)
+    (cfg : Val) (v : GoVal) (h : unpack std o (.strct fs) (.strct xs) cfg = .ok v) :
+    ∃ xs', v = .strct xs' ∧ FrameFields o fs xs xs' cfg := by
+  unfold unpack at h
+  simp only at h
+  obtain ⟨xs', hxs, hr⟩ := bind_eq_ok h
+  simp only [Outcome.ok.injEq] at hr
+  exact ⟨xs', hr.symm, (fclaims std unpackFuel).strct o fs xs cfg xs' hxs⟩
+
+/-! non-vacuity: what the predicate says for a concrete struct - an ignored field and a nested struct with an unmentioned
+field; a change of either is refused -/
+def exFs : List (String × String × String × Ty) :=
+  [("A", "a,ignore", "", .prim (.int 64)), ("S", "s", "", .strct [("X", "x", "", .prim (.int 64)), ("Y", "y", "", .prim .string)])]
+def exCfg : Val := .sub [("s", .sub [("x", .prim (.uint 5))] [] true false)] [] true false
+example : FrameFields {} exFs [.scalar (.int 1), .strct [.scalar (.int 2), .scalar (.str "keep")]]
+    [.scalar (.int 1), .strct [.scalar (.int 5), .scalar (.str "keep")]] exCfg := by
+  unfold exFs exCfg
+  rw [frameFields_cons]
+  have ha0 : accessField {} "A" "a,ignore" "" = .ok none := by rfl
+  rw [ha0]
+  refine ⟨rfl, ?_⟩
+  rw [frameFields_cons]
+  refine ⟨?_, by unfold FrameFields; trivial⟩
+  have ha : accessField {} "S" "s" "" = .ok (some ⟨"s", {}, [], .dflt⟩) := by rfl
+  rw [ha]
+  simp only [Bool.false_eq_true, if_false]
+  unfold GetFrame
+  have hp : pathGet tcPlain (parsePathOpts "s" { ({} : Opts) with handling := Handling.dflt })
+      (.sub [("s", .sub [("x", .prim (.uint 5))] [] true false)] [] true false) =
+      .ok (some (.sub [("x", .prim (.uint 5))] [] true false)) := by rfl
+  rw [hp]
+  simp only [Val.isNilPrim, Bool.false_eq_true, if_false]
+  rw [frameIn_strct _ _ _ _ _ _ (rfl : toCfg? _ = some _)]
+  rw [frameFields_cons]
+  refine ⟨?_, ?_⟩
+  · have hx : accessField { ({} : Opts) with handling := Handling.dflt } "X" "x" "" = .ok (some ⟨"x", {}, [], .dflt⟩) := by rfl
+    rw [hx]
+    simp only [Bool.false_eq_true, if_false]
+    unfold GetFrame
+    have hpx : pathGet tcPlain (parsePathOpts "x" { ({ ({} : Opts) with handling := Handling.dflt } : Opts) with handling := Handling.dflt })
+        (.sub [("x", .prim (.uint 5))] [] true false) = .ok (some (.prim (.uint 5))) := by rfl
+    rw [hpx]
+    simp only [Val.isNilPrim, Bool.false_eq_true, if_false]
+    unfold FrameIn; trivial
+  · rw [frameFields_cons]
+    refine ⟨?_, by unfold FrameFields; trivial⟩
+    have hy : accessField { ({} : Opts) with handling := Handling.dflt } "Y" "y" "" = .ok (some ⟨"y", {}, [], .dflt⟩) := by rfl
+    rw [hy]
+    simp only [Bool.false_eq_true, if_false]
+    unfold GetFrame
+    have hpy : pathGet tcPlain (parsePathOpts "y" { ({ ({} : Opts) with handling := Handling.dflt } : Opts) with handling := Handling.dflt })
+        (.sub [("x", .prim (.uint 5))] [] true false) = .ok none := by rfl
+    rw [hpy]
+    simp [Ty.isStrct]
 
 end Ucfg.C13
